@@ -81,7 +81,18 @@ func RunProperty(p *Property, tier string, self string) int {
 			careful := false
 			carefulUntil := int64(-1)
 			part := 0
+			hangs := 0
 			for attempt := 0; attempt < 200; attempt++ {
+				if time.Since(startWall) > budget+30*time.Second || hangs >= 6 {
+					// out of budget, or this shard keeps hanging: stop here and say so
+					mu.Lock()
+					total.Truncated = true
+					if total.LastIndex == 0 || from < total.LastIndex {
+						total.LastIndex = from
+					}
+					mu.Unlock()
+					return
+				}
 				part++
 				hf := filepath.Join(tmp, fmt.Sprintf("h%d.%d", sh, part))
 				remaining := budget - time.Since(startWall)
@@ -152,6 +163,7 @@ func RunProperty(p *Property, tier string, self string) int {
 					viols = append(viols, foundViolation{hangAt, c, o})
 					mu.Unlock()
 					from, careful = hangAt+1, false
+					hangs++
 				case careful && lastS >= 0:
 					c := caseAt(p, tier, lastS)
 					o := Outcome{Violation: fmt.Sprintf("crash: worker died (%v) while running case %d", werr, lastS), FindingKey: "crash", Class: "crash"}
